@@ -409,7 +409,9 @@ pub fn gen_grid(rng: &mut Rng, depth: usize, budget: &mut i64) -> MGrid {
             names.push(k);
         }
     }
-    let meta = if rng.chance(1, 2) { gen_dict(rng, depth, budget) } else { MDict::new() };
+    let mut meta = if rng.chance(1, 2) { gen_dict(rng, depth, budget) } else { MDict::new() };
+    // 'ver' is the reserved version tag of grid meta in both encodings, not a user tag (stated bound)
+    meta.remove("ver");
     let cols: Vec<MCol> = names
         .iter()
         .map(|n| MCol { name: n.clone(), meta: if rng.chance(1, 3) { gen_dict(rng, depth, budget) } else { MDict::new() } })
